@@ -693,5 +693,8 @@ func init() {
 		c.Rule = "state = canonical snapshot of the bucket after a put/delete history; evaluation = one page request of a complete paginated walk (prefix, delimiter, max-keys 1..n+1, start marker, V1|V2) followed to IsTruncated=false, or one fallback listing on non-paginating backends; distinct_nontrivial = distinct canonical states"
 		c.Assumptions = append(c.Assumptions, "a truncated page followed by an empty final page is allowed", "a common prefix whose key group straddles a client-invented start marker may or may not be reported")
 		runList(c, "C04")
+		if c.Replay == nil {
+			bigObjects(c)
+		}
 	}
 }
